@@ -532,7 +532,8 @@ func runC13(cfg Config, args []string) int {
 		Assume: []string{"the module is never moved: all runs of a group happen in the same directory", "marker collisions with the source text are never generated",
 			"Go map iteration order and goroutine interleaving inside the real process are steered (GOMAXPROCS, stat delays) and sampled by repetition, not dictated; no oracle depends on them"},
 		Extra:    map[string]any{"components_real": componentsReal, "components_simulated": componentsSim, "seam": env.Seam, "simulated_time": "clock instants injected: see distinct_by_measure.clock-instants; reads by convergen: counters.simulated_clock_reads"},
-		Required: []string{"n:compared_runs", "n:simulated_markers_used"},
+		Required: []string{"n:compared_runs"},
+		Desired:  []string{"n:simulated_markers_used"},
 	}
 	rep := RunBatch(b, start)
 	rep.Stats.Counters["n:groups"] = rep.Stats.Counters["evaluations"]
